@@ -102,28 +102,40 @@ Proof.
   - intros [H1 [H2 H3]]. repeat split; auto. rewrite H3. apply Bool.eqb_reflx.
 Qed.
 
+Lemma events_code_spec ts evs : events_code ts evs = 0 <-> C11_events ts evs.
+Proof.
+  unfold events_code, C11_events.
+  pose proof (every_splitb_spec (fun _ ev => listedb ts ev) (fun _ ev => listed ts ev)
+                evs (fun _ ev => listedb_spec ts ev)) as H1.
+  pose proof (every_splitb_spec in_orderb in_order evs in_orderb_spec) as H2.
+  pose proof (every_splitb_spec (freshb ts) (fresh ts) evs (freshb_spec ts)) as H3.
+  pose proof (every_splitb_spec (neededb ts) (needed ts) evs (neededb_spec ts)) as H4.
+  destruct (every_splitb (fun _ ev => listedb ts ev) evs); cbn [negb].
+  2:{ split; [discriminate|]. intros [H _]. apply H1 in H. discriminate. }
+  destruct (every_splitb in_orderb evs); cbn [negb].
+  2:{ split; [discriminate|]. intros [_ [H _]]. apply H2 in H. discriminate. }
+  destruct (every_splitb (freshb ts) evs); cbn [negb].
+  2:{ split; [discriminate|]. intros [_ [_ [H _]]]. apply H3 in H. discriminate. }
+  destruct (every_splitb (neededb ts) evs); cbn [negb].
+  2:{ split; [discriminate|]. intros [_ [_ [_ H]]]. apply H4 in H. discriminate. }
+  split; [|reflexivity]. intros _.
+  split; [apply H1; reflexivity|]. split; [apply H2; reflexivity|].
+  split; [apply H3; reflexivity|apply H4; reflexivity].
+Qed.
+
 Lemma safe_code_spec ts nt nr o : safe_code ts nt nr o = 0 <-> C11_safe ts nt nr o.
 Proof.
   unfold safe_code, C11_safe.
-  pose proof (every_splitb_spec (fun _ ev => listedb ts ev) (fun _ ev => listed ts ev)
-                (o_events o) (fun _ ev => listedb_spec ts ev)) as H1.
-  pose proof (every_splitb_spec in_orderb in_order (o_events o) in_orderb_spec) as H2.
-  pose proof (every_splitb_spec (freshb ts) (fresh ts) (o_events o) (freshb_spec ts)) as H3.
-  pose proof (every_splitb_spec (neededb ts) (needed ts) (o_events o) (neededb_spec ts)) as H4.
+  pose proof (events_code_spec ts (o_events o)) as HE. unfold C11_events in HE.
   pose proof (accountb_spec ts nt nr o) as H5.
-  destruct (every_splitb (fun _ ev => listedb ts ev) (o_events o)); cbn [negb].
-  2:{ split; [discriminate|]. intros [H _]. apply H1 in H. discriminate. }
-  destruct (every_splitb in_orderb (o_events o)); cbn [negb].
-  2:{ split; [discriminate|]. intros [_ [H _]]. apply H2 in H. discriminate. }
-  destruct (every_splitb (freshb ts) (o_events o)); cbn [negb].
-  2:{ split; [discriminate|]. intros [_ [_ [H _]]]. apply H3 in H. discriminate. }
-  destruct (every_splitb (neededb ts) (o_events o)); cbn [negb].
-  2:{ split; [discriminate|]. intros [_ [_ [_ [H _]]]]. apply H4 in H. discriminate. }
-  destruct (accountb ts nt nr o); cbn [negb].
-  2:{ split; [discriminate|]. intros [_ [_ [_ [_ H]]]]. apply H5 in H. discriminate. }
-  split; [|reflexivity]. intros _.
-  split; [apply H1; reflexivity|]. split; [apply H2; reflexivity|].
-  split; [apply H3; reflexivity|]. split; [apply H4; reflexivity|apply H5; reflexivity].
+  destruct (events_code ts (o_events o) =? 0) eqn:E; cbn [negb].
+  - apply Z.eqb_eq in E. destruct (accountb ts nt nr o); cbn [negb].
+    + split; [|reflexivity]. intros _. destruct (proj1 HE E) as [A [B [C D]]].
+      split; [exact A|]. split; [exact B|]. split; [exact C|]. split; [exact D|].
+      apply H5. reflexivity.
+    + split; [discriminate|]. intros [_ [_ [_ [_ H]]]]. apply H5 in H. discriminate.
+  - apply Z.eqb_neq in E. split; [intros H; congruence|].
+    intros [A [B [C [D _]]]]. exfalso. apply E. apply HE. auto.
 Qed.
 
 (* ---------- step-wise validity of a trace ---------- *)
@@ -443,7 +455,7 @@ Lemma model_prop_code pend okf ts nt nr :
   prop_code ts nt nr o = 0 \/ prop_code ts nt nr o = 6.
 Proof.
   cbv zeta. unfold prop_code. rewrite model_safe_code. cbn [Z.eqb].
-  unfold useful_code. destruct (every_splitb _ _); auto.
+  unfold useful_code, useful_events_code. destruct (every_splitb _ _); auto.
 Qed.
 
 (* ---------- consequences, stated for ANY observable that passes the safety clauses ---------- *)
@@ -627,7 +639,7 @@ Qed.
 
 Lemma useful_code_spec ts o : useful_code ts o = 0 <-> C11_useful ts o.
 Proof.
-  unfold useful_code, C11_useful.
+  unfold useful_code, useful_events_code, C11_useful.
   pose proof (every_splitb_spec (usefulb ts) (useful ts) (o_events o)
                 (fun pre ev => conj (usefulb_sound ts pre ev) (usefulb_complete ts pre ev))) as H.
   destruct (every_splitb (usefulb ts) (o_events o)).
